@@ -13,7 +13,7 @@ fn cfg(d: &mut Dna) -> GenCfg {
         1 => vec![Tr::Ord],
         _ => vec![Tr::PartialOrd, Tr::Ord],
     };
-    let mut c = GenCfg::behaviour(&must, &[Tr::PartialEq, Tr::Eq, Tr::Clone, Tr::Debug]);
+    let mut c = GenCfg::behaviour(&must, &[Tr::PartialEq, Tr::Eq, Tr::Clone, Tr::Copy, Tr::Hash, Tr::Debug]);
     c.kinds = vec![Kind::Enum];
     c.trait_pct = 10;
     c.attr_pct = 25;
@@ -28,6 +28,19 @@ fn cfg(d: &mut Dna) -> GenCfg {
 
 /// special shapes: very many unit variants (tag width boundaries)
 pub fn adjust(s: &mut TypeSpec, d: &mut Dna) -> bool {
+    // C-like enums are what most ordered enums in the wild look like: make every sixth enum field-less
+    if s.kind == Kind::Enum && s.variants.len() >= 2 && s.gens.is_empty() && d.chance(20) {
+        for v in s.variants.iter_mut() {
+            v.shape = Shape::Unit;
+            v.fields.clear();
+            // (a unit variant cannot switch its shown name off)
+            v.attrs.retain(|a| a.tr != Tr::Debug);
+        }
+        // (`repr(C, u8)` is only legal on enums with fields)
+        if s.repr.as_deref().map(|r| r.contains("C, u8") || r.contains("u8, C")).unwrap_or(false) {
+            s.repr = None;
+        }
+    }
     if d.chance(8) && s.gens.is_empty() {
         let n = [127usize, 128, 129, 255, 256, 257][d.pick(6)];
         let first = s.variants.first().cloned();
@@ -106,6 +119,18 @@ pub fn adjust(s: &mut TypeSpec, d: &mut Dna) -> bool {
         // the upper half of u128: the discriminants of a prefix of the variants (often all of them) are written 2^127
         // higher than the model's value; the first variant and the first variant after the prefix are explicit so that no
         // implicit discriminant continues across the boundary
+        // field-less enums are what people make Copy: the order must not depend on that (nor take a short cut through `as isize`)
+        if !has_fields && !s.has(Tr::Copy) && matches!(r, "u64" | "usize" | "u128" | "i128" | "i64") && d.chance(40) {
+            s.traits.push(TAttr::flag(Tr::Copy));
+            // ... with values on both sides of the isize range: the first variants count from 0, the last one sits at the top
+            if ok && matches!(r, "u64" | "usize" | "u128" | "i128") && d.chance(60) {
+                for v in s.variants.iter_mut() {
+                    v.disc = None;
+                }
+                let last = s.variants.len() - 1;
+                s.variants[last].disc = Some(hi - 1);
+            }
+        }
         let aligned = s.repr.as_deref().map(|x| x.contains("align")).unwrap_or(false);
         if ok && r == "u128" && !with_c && d.chance(if aligned { 90 } else { 50 }) && ds.iter().all(|x| *x >= 0 && *x < (1i128 << 126)) {
             if s.variants[0].disc.is_none() {
@@ -200,6 +225,12 @@ pub fn render(s: &TypeSpec) -> Option<Rendered> {
     let nonmono = if wide { discs_u.windows(2).any(|w| w[0] > w[1]) } else { discs.windows(2).any(|w| w[0] > w[1]) };
     let nv = s.variants.len();
     let mut classes = vec![];
+    if s.has(Tr::Copy) && s.variants.iter().all(|v| v.shape == Shape::Unit) {
+        classes.push("fieldless_copy_enum".to_string());
+        if discs.iter().any(|x| *x > isize::MAX as i128 || *x < isize::MIN as i128) {
+            classes.push("fieldless_copy_enum_with_discriminants_beyond_isize".to_string());
+        }
+    }
     if !prim {
         classes.push("no_primitive_repr".to_string());
     }
@@ -254,10 +285,11 @@ pub fn behaviour() -> Behaviour {
         cfg,
         adjust,
         render,
-        quick: 2500,
+        quick: 4500,
         thorough: 15000,
         batch: 20,
         assumptions: &["layout-dependent behaviour is observed on x86-64 only; the debug build turns misaligned reads into aborts"],
         miri_units: 24,
+        extra: None,
     }
 }
